@@ -570,16 +570,16 @@ theorem never_wrong_body_block2_composed_partial (P : B2Par) (hP : B2ParOK P) (e
 /-- a concrete system for the examples: 40-byte body, the server settles on 16-byte blocks -/
 def exPar (single : Bool) : B2Par :=
   { body := (List.range 40).map (fun i => UInt8.ofNat i),
-    cfg := fun _ => { maxSize := 1152, tokLen := 4, base := 6, d := 11, tokOpts0 := 8, b2 := 0, extra := 6, blk := some 0 },
+    cfg := fun _ => some { maxSize := 1152, tokLen := 4, base := 6, d := 11, tokOpts0 := 8, b2 := 0, extra := 6, blk := some 0 },
     etagOf := fun k => List.replicate k 1, fmt := 42, room := 1000, single := single, cap := 4, junk := 0 }
 
 /-- the hypothesis `B2ParOK` is satisfiable -/
 example (single : Bool) : B2ParOK (exPar single) :=
   { len := (by show ((List.range 40).map (fun i => UInt8.ofNat i)).length < 2 ^ 32; decide),
-    ms := fun _ => (by show 1152 < 2 ^ 62; decide),
-    tok := fun _ => (by show 8 ≤ 6 + 43; decide),
-    b2 := fun _ _ => (by show ((2 ^ (0 + 4) : Nat) : Int) ≤ adlAvail 1152 8 4; decide),
-    b26 := fun _ => (by show 0 ≤ 6; decide),
+    ms := fun _ c hc => (by cases hc; show 1152 < 2 ^ 62; decide),
+    tok := fun _ c hc => (by cases hc; show 8 ≤ 6 + 43; decide),
+    b2 := fun _ c hc _ => (by cases hc; show ((2 ^ (0 + 4) : Nat) : Int) ≤ adlAvail 1152 8 4; decide),
+    b26 := fun _ c hc => (by cases hc; show 0 ≤ 6; decide),
     inj := (by
       intro a b h
       have h' : List.replicate a (1 : UInt8) = List.replicate b 1 := h
